@@ -1,43 +1,4 @@
-use std::cmp::Ordering;
-pub type TxId = usize;
-pub assume_specification<T, U, F: FnOnce(T) -> U>[ Option::<T>::map_or ](o: Option<T>, d: U, f: F) -> (r: U)
-    requires o matches Some(x) ==> f.requires((x,)),
-    ensures o is None ==> r == d, o matches Some(x) ==> f.ensures((x,), r);
-
-// ---------- TRUSTED stand-ins for revm / grevm dependencies ----------
-#[derive(PartialEq, Eq, Structural, Clone, Copy)] pub struct Address(pub u64);
-#[derive(PartialEq, Eq, Structural, Clone, Copy)] pub struct U256(pub u64);
-#[derive(PartialEq, Eq, Structural, Clone, Copy)] pub struct AccountInfo { pub balance: U256, pub nonce: u64, pub code_hash: u64 }
-pub struct Account { pub info: AccountInfo, pub touched: bool }
-impl Account {
-    pub fn mark_touch(&mut self) ensures final(self).info == old(self).info, final(self).touched { self.touched = true; }
-}
-impl From<AccountInfo> for Account {
-    fn from(info: AccountInfo) -> (a: Account) { Account { info, touched: false } }
-}
-impl vstd::std_specs::convert::FromSpecImpl<AccountInfo> for Account {
-    open spec fn obeys_from_spec() -> bool { true }
-    open spec fn from_spec(info: AccountInfo) -> Account { Account { info, touched: false } }
-}
-#[verifier::external_body]
-pub struct EvmState { m: std::collections::HashMap<u64, u64> }
-impl EvmState {
-    pub uninterp spec fn view(&self) -> Map<Address, Account>;
-    #[verifier::external_body]
-    pub fn contains_key(&self, a: &Address) -> (b: bool) ensures b == self@.dom().contains(*a) { unimplemented!() }
-    #[verifier::external_body]
-    pub fn get(&self, a: &Address) -> (o: Option<&Account>) ensures o is Some == self@.dom().contains(*a), o matches Some(x) ==> *x == self@[*a] { unimplemented!() }
-    #[verifier::external_body]
-    pub fn insert(&mut self, a: Address, acc: Account) -> (o: Option<Account>)
-        ensures final(self)@ == old(self)@.insert(a, acc) { unimplemented!() }
-}
-pub struct ExecutionResult { pub gas: u64 }
-pub struct ResultAndState { pub result: ExecutionResult, pub state: EvmState }
-pub struct TxEnv { pub caller: Address, pub nonce: u64 }
-pub enum EVMError<E> { Transaction(u64), Database(E), Custom(u8) }
-pub struct GrevmError<E> { pub txid: usize, pub error: EVMError<E> }
-pub enum TxExecutionOutcome { Executed(ExecutionResult), Skipped(u64) }
-
+// ---------- TRUSTED stand-ins specific to U05 ----------
 #[derive(Clone, Copy)]
 pub struct DeferredBeneficiaryReward(pub U256);
 impl DeferredBeneficiaryReward {
@@ -45,8 +6,6 @@ impl DeferredBeneficiaryReward {
     #[verifier::external_body]
     pub fn apply_to(self, account: Option<AccountInfo>) -> (r: AccountInfo) ensures r == self.spec_apply(account) { unimplemented!() }
 }
-pub trait DatabaseRef { type Error; }
-
 /// committed-state view: what basic_ref answers for the committed prefix + ghost commit log
 #[verifier::external_body]
 #[verifier::reject_recursive_types(DB)]
